@@ -28,6 +28,7 @@ func c04Main(args []string) error {
 	dir := c.fs.String("dir", "", "scratch dir")
 	sched := c.fs.Int("sched", 0, "run every history under this many option schedules (options re-drawn at every open)")
 	bigfree := c.fs.Bool("bigfree", false, "prepend one history whose free list exceeds 65535 entries")
+	backups := c.fs.Bool("backups", false, "hot backups through open readers, with write transactions committed between the chunks of the copy")
 	readersAlways := c.fs.Bool("readers", false, "every history holds read transactions open across writer events")
 	c.fs.Parse(args)
 	w, done := openOut(c.out)
@@ -72,8 +73,13 @@ func c04Main(args []string) error {
 		o := histOptions(cr, i)
 		cfg := genCfg{ps: o.ps, txs: 2 + cr.intn(*txs), opsPerTx: *opsPerTx, bigVals: cr.chance(1, 2), readers: cr.chance(1, 2),
 			reopen: cr.chance(1, 2), malformed: cr.chance(1, 2), moves: cr.chance(2, 3)}
-		if *readersAlways {
+		if *readersAlways || *backups {
 			cfg.readers = true
+		}
+		if *backups {
+			cfg.backups = true
+			cfg.reopen = false
+			o.imm = 16 << 20 // a remap would wait for the reader the backup itself is using
 		}
 		if cfg.readers && cr.chance(3, 4) {
 			o.imm = 4 << 20 // avoid most remaps (which block on open readers) in reader histories
